@@ -20,8 +20,22 @@ import tempfile
 VERIF = os.path.dirname(os.path.dirname(os.path.abspath(__file__)))
 
 
-def sh(cmd, **kw):
-    return subprocess.run(cmd, shell=isinstance(cmd, str), capture_output=True, text=True, **kw)
+def sh(cmd, timeout=None, **kw):
+    """Run; on a timeout kill the whole process group (a hanging demonstration may leave children that keep the pipes open)
+    and report exit code 124."""
+    import signal  # noqa: PLC0415
+
+    p = subprocess.Popen(cmd, shell=isinstance(cmd, str), stdout=subprocess.PIPE, stderr=subprocess.PIPE, text=True, start_new_session=True, **kw)
+    try:
+        out, err = p.communicate(timeout=timeout)
+    except subprocess.TimeoutExpired:
+        try:
+            os.killpg(p.pid, signal.SIGKILL)
+        except ProcessLookupError:
+            pass
+        out, err = p.communicate()
+        return subprocess.CompletedProcess(cmd, 124, out, (err or "") + "\n[timed out]")
+    return subprocess.CompletedProcess(cmd, p.returncode, out, err)
 
 
 def main() -> int:
@@ -58,7 +72,7 @@ def main() -> int:
             r = sh("/venv/bin/python -m pytest -q -p no:cacheprovider --timeout=900 tests 2>&1 | tail -3", cwd=clone, env=env)
             out["tests_on_patched"] = r.stdout.strip().splitlines()[-1] if r.stdout.strip() else r.stderr[-300:]
             for d in demos:
-                r1 = sh(["/venv/bin/python", d], cwd=clone, env=env, timeout=600)
+                r1 = sh(["/venv/bin/python", d], cwd=clone, env=env, timeout=180)
                 env0 = dict(env, PYTHONPATH="/repo/src")
                 r0 = sh(["/venv/bin/python", d], cwd="/repo", env=env0, timeout=600)
                 out[f"demo {os.path.basename(d)}"] = {"patched_rc": r1.returncode, "clean_rc": r0.returncode,
